@@ -104,4 +104,69 @@ example : (pcEnc .pag { nodes := [0, 1], dir := [(0, 1)] } 2).map (Mat.toLists 2
 example : (pcDec .pag (Mat.ofLists [[0, 2], [3, 0]]) 2).map (·.dir) = some [(0, 1)] := by decide
 example : (pcEnc .cpdag { nodes := [0, 1], dir := [(0, 1)] } 2).map (Mat.toLists 2) = some [[0, 0], [1, 0]] := by decide
 
+theorem lookupCfg_mem {t : List (PB × Int × Int)} {p : PB} {xy : Int × Int} (h : lookupCfg t p = some xy) :
+    (p, xy.1, xy.2) ∈ t := by
+  unfold lookupCfg at h
+  cases hf : t.find? (fun e => e.1 == p) with
+  | none => simp [hf] at h
+  | some e =>
+    simp [hf] at h
+    have hm := List.mem_of_find?_eq_some hf
+    have hp := List.find?_some hf
+    simp at hp
+    obtain ⟨p', x, y⟩ := e
+    simp at hp h
+    subst hp; subst h
+    exact hm
+
+theorem lookupCells_mem {t : List (PB × Int × Int)} {x y : Int} {p : PB} (h : lookupCells t x y = some p) :
+    (p, x, y) ∈ t := by
+  unfold lookupCells at h
+  cases hf : t.find? (fun e => e.2.1 == x && e.2.2 == y) with
+  | none => simp [hf] at h
+  | some e =>
+    simp [hf] at h
+    have hm := List.mem_of_find?_eq_some hf
+    have hp := List.find?_some hf
+    obtain ⟨p', x', y'⟩ := e
+    simp at hp h
+    obtain ⟨rfl, rfl⟩ := hp
+    subst h
+    exact hm
+
+/-- the executable domain test of the driver implies the hypothesis of the theorems -/
+theorem inDomain_sound {c f g n} (h : inDomain c f g n = true) : InDom c f g n := by
+  intro a b ha hb hab
+  have := (List.all_eq_true.1 h) (a, b) (mem_allPairs.2 ⟨ha, hb⟩)
+  simp only [Bool.or_eq_true, beq_iff_eq, hab, false_or] at this
+  rcases this with he | he
+  · exact ⟨0, 0, by rw [he]; simp [tableZ]⟩
+  · unfold expressible at he
+    cases hl : lookupCfg (table c f) (bits g a b) with
+    | none => simp [hl] at he
+    | some xy => exact ⟨xy.1, xy.2, List.mem_cons_of_mem _ (lookupCfg_mem hl)⟩
+
+/-- the executable well-formedness test of the driver implies the hypothesis of the theorems, with
+    the documented reading `specDecBits` -/
+theorem wfMatrix_sound {c f A n} (h : wfMatrix c f A n = true) : Denotes c f A n (specDecBits c f A) := by
+  have hall := List.all_eq_true.1 h
+  refine ⟨fun a ha => ?_, fun a b ha hb hab => ?_⟩
+  · have := hall (a, a) (mem_allPairs.2 ⟨ha, ha⟩)
+    simpa using this
+  · have := hall (a, b) (mem_allPairs.2 ⟨ha, hb⟩)
+    simp only [beq_iff_eq, hab, if_false, Bool.or_eq_true, Bool.and_eq_true] at this
+    simp only [specDecBits, hab, if_false]
+    cases hl : lookupCells (table c f) (A a b) (A b a) with
+    | some p => exact List.mem_cons_of_mem _ (by simpa using lookupCells_mem hl)
+    | none =>
+      rcases this with ⟨h1, h2⟩ | h3
+      · simp [h1, h2, tableZ]
+      · simp [hl] at h3
+
+example : InDom .pag .pcalg exPag 3 ∧ GraphOK exPag 3 :=
+  ⟨inDomain_sound (by decide), ⟨rfl, by intro a; simp [bits, exPag, PB.empty]; omega, by
+    intro a b h; simp [bits, exPag, PB.empty]; omega⟩⟩
+example : Denotes .pag .pcalg (Mat.ofLists [[0, 2, 0], [1, 0, 2], [0, 2, 0]]) 3
+    (specDecBits .pag .pcalg (Mat.ofLists [[0, 2, 0], [1, 0, 2], [0, 2, 0]])) := wfMatrix_sound (by decide)
+
 end C14
